@@ -196,8 +196,58 @@ func (un *Unit) lookupIface(recvT types.Type, m *types.Func) (*FuncContract, str
 	return nil, key, path
 }
 
+// devirtualize: when the receiver's dynamic type is syntactically known, call the concrete in-repo method.
+func (un *Unit) devirtualize(fr *Frame, st *State, recv Val, m *types.Func, args []Val, ats []types.Type, pos token.Pos) (Val, bool) {
+	t := recv.t
+	if !strings.HasPrefix(t, "(mk_iface ") {
+		return Val{}, false
+	}
+	rest := strings.TrimSuffix(strings.TrimPrefix(t, "(mk_iface "), ")")
+	sp := strings.Index(rest, " ")
+	if sp < 0 {
+		return Val{}, false
+	}
+	var tag int
+	if _, err := fmt.Sscanf(rest[:sp], "%d", &tag); err != nil || tag == 0 {
+		return Val{}, false
+	}
+	ct, ok := typeTagTypes[tag]
+	if !ok {
+		return Val{}, false
+	}
+	payload := rest[sp+1:]
+	sel := un.prog.prog.MethodSets.MethodSet(ct).Lookup(m.Pkg(), m.Name())
+	if sel == nil {
+		return Val{}, false
+	}
+	fn := un.prog.prog.MethodValue(sel)
+	if fn == nil || (fn.Blocks == nil && un.lookupFuncContract(fn) == nil) {
+		return Val{}, false
+	}
+	if !un.prog.isRepoFunc(fn) && un.lookupFuncContract(fn) == nil {
+		return Val{}, false
+	}
+	var rv Val
+	switch ct.Underlying().(type) {
+	case *types.Pointer, *types.Map, *types.Chan:
+		rv = Val{t: payload, typ: ct}
+	case *types.Signature:
+		rv = Val{t: payload, typ: ct, fn: recv.fn, binds: recv.binds}
+	default:
+		rv = Val{t: sel2(un.get(st, un.boxComp(ct)), payload), typ: ct}
+	}
+	all := append([]Val{rv}, args...)
+	allT := append([]types.Type{ct}, ats...)
+	return un.callStatic(fr, st, fn, nil, all, allT, pos), true
+}
+
+func sel2(a, i string) string { return "(select " + a + " " + i + ")" }
+
 func (un *Unit) invoke(fr *Frame, st *State, recv Val, recvT types.Type, m *types.Func, args []Val, ats []types.Type, pos token.Pos) Val {
 	sig := m.Type().(*types.Signature)
+	if v, ok := un.devirtualize(fr, st, recv, m, args, ats, pos); ok {
+		return v
+	}
 	fc, key, path := un.lookupIface(recvT, m)
 	if fc != nil {
 		names := append([]string{"this"}, sigNames(sig, fc)...)
